@@ -62,10 +62,17 @@ func (c *HCache) Keys() []string {
 // ---------------------------------------------------------------------------------------
 // the package-level loader (spec.PathLoader) dispatches to the loader of the running operation
 
-func init() {
+func init() { SetGlobalLoader("L0") }
+
+// SetGlobalLoader installs a new function value as the package-level spec.PathLoader. Every
+// installed function dispatches to the loader of the running operation and records its own tag,
+// so that a call can be checked to have used the loader that was installed when it was made
+// (the package variable is read at call time, C16).
+func SetGlobalLoader(tag string) {
 	spec.PathLoader = func(u string) (json.RawMessage, error) {
 		c := sim.CurCtx()
 		if c != nil && c.Loader != nil {
+			c.LoaderTags = append(c.LoaderTags, tag)
 			return c.Loader(u)
 		}
 		return nil, fmt.Errorf("simulated store: package-level loader called outside an operation for %q", u)
@@ -366,6 +373,9 @@ func ExecOp(op Op, env *Env) *OpResult {
 
 	if rootVal != nil {
 		res.RootBefore, _ = json.Marshal(rootVal)
+	}
+	if op.LoaderTag != "" && !env.Sched {
+		SetGlobalLoader(op.LoaderTag)
 	}
 	run := func() {
 		call()
